@@ -73,7 +73,7 @@ func walkRoot(r *core.Rand) cty.Value {
 }
 
 func (Driver) Run(c *core.Ctx) {
-	n := int64(c.N(5000, 60000))
+	n := int64(c.N(5000, 40000))
 	for i := int64(0); i < n; i++ {
 		if !c.Want(i) {
 			continue
